@@ -93,6 +93,22 @@ class Mir:
             ds = self.defs.get(p["l"], [])
             if len(ds) == 1 and ds[0][0] == "assign" and ds[0][2]["rv"]["k"] == "bin" and ds[0][2]["rv"]["op"] == "AddWithOverflow":
                 return self.rv(ds[0][2]["rv"], depth + 1)
+        if p["p"] and isinstance(p["p"][0], dict) and "f" in p["p"][0] and not self.b["locals"][p["l"]].get("name") and depth < 14:
+            # a field of a tuple built only to be matched - `match (a, b) { (Some(x), Some(y)) => .. }` - is the operand it was built from
+            ds = self.defs.get(p["l"], [])
+            if len(ds) == 1 and ds[0][0] == "assign" and ds[0][2]["rv"]["k"] == "agg" and ds[0][2]["rv"].get("ak") == "tuple" and \
+                    p["p"][0]["f"] < len(ds[0][2]["rv"].get("fields", [])):
+                o = ds[0][2]["rv"]["fields"][p["p"][0]["f"]]
+                q = o.get("copy") or o.get("move")
+                if q is not None:
+                    return self.place({"l": q["l"], "p": list(q["p"]) + list(p["p"][1:])}, depth + 1)
+        if p["p"] and not self.b["locals"][p["l"]].get("name") and depth < 14:
+            # a projection of an unnamed temporary that merely holds another place
+            ds = self.defs.get(p["l"], [])
+            if len(ds) == 1 and ds[0][0] == "assign" and ds[0][2]["rv"]["k"] == "use":
+                q = ds[0][2]["rv"]["op"].get("move") or ds[0][2]["rv"]["op"].get("copy")
+                if q is not None and (q["p"] or self.b["locals"][q["l"]].get("name")):
+                    return self.place({"l": q["l"], "p": list(q["p"]) + list(p["p"])}, depth + 1)
         return pl(self.b, p, lambda l: self.term(l, depth + 1))
 
     def op(self, o, depth=0):
@@ -369,6 +385,21 @@ def analyse(body, markers, exception_edges, displaced_ok=True):
                                 if val == 0 or (val == "otherwise" and 0 not in tt["vals"]):
                                     cut.add((b2, val))
                                     used.append("None edge of discriminant(%s)" % desc)
+                # (ii') the dropped place lives inside a variant of an enclosing place (`(t.0 as Some).0`): on every edge of a switch on
+                # discriminant(t.0) other than that variant's there is no such value (drop elaboration re-tests the discriminant itself)
+                for i_, e_ in enumerate(place["p"]):
+                    if isinstance(e_, dict) and "downcast" in e_ and str(e_.get("vname")) in ("Some", "Ok", "Err"):
+                        outer = place_key({"l": place["l"], "p": place["p"][:i_]})
+                        want = {"Some": 1, "Ok": 0, "Err": 1}[str(e_["vname"])]
+                        for s in bl["s"]:
+                            if s["k"] == "assign" and s["rv"]["k"] == "disc" and place_key(s["rv"]["place"]) == outer:
+                                o = tt["op"]
+                                p = o.get("copy") or o.get("move")
+                                if p is not None and not p["p"] and p["l"] == s["place"]["l"]:
+                                    for val in list(tt["vals"]) + ["otherwise"]:
+                                        if val != want and not (val == "otherwise" and want not in tt["vals"]):
+                                            cut.add((b2, val))
+                                            used.append("edges of discriminant(%s) other than %s" % (m.place({"l": place["l"], "p": place["p"][:i_]}), e_["vname"]))
                 # (iv) exception edges by condition term
                 cond = m.switch_cond(b2)
                 for (eplace, econd, eedge), reason in exception_edges.items():
